@@ -256,6 +256,99 @@ def _cases_from_tlc(module, cfg, wd):
     return r, cases
 
 
+
+def _apalache(inv, wd, expect_ok=True, timeout=900):
+    """apalache-mc check --length=0 --inv=<inv> TimeConvA.tla ; returns wall seconds"""
+    import subprocess, time
+    out = os.path.join(wd, "apalache_" + inv)
+    t0 = time.time()
+    p = subprocess.run(["timeout", str(timeout), "apalache-mc", "check", f"--out-dir={out}", "--length=0", f"--inv={inv}", "TimeConvA.tla"],
+                       cwd=vlib.SPECS, stdout=subprocess.PIPE, stderr=subprocess.STDOUT, text=True)
+    ok = "EXITCODE: OK" in p.stdout
+    bad = "EXITCODE: ERROR (12)" in p.stdout
+    if not ok and not bad:
+        raise ToolError(f"apalache failed on {inv}: {p.stdout[-600:]}")
+    if ok != expect_ok:
+        raise ToolError(f"apalache: invariant {inv} of TimeConvA.tla {'holds' if ok else 'is violated'}, expected the opposite: "
+                        "the specification itself is inconsistent")
+    import shutil
+    shutil.rmtree(out, ignore_errors=True)
+    return round(time.time() - t0, 1)
+
+
+def c14_run(prop, tier, seed):
+    wd = vlib.workdir(prop)
+    known = vlib.load_known()
+    r1, cases = _cases_from_tlc("MC_TimeConv", "MC_TimeConv.cfg", wd)
+    kinds = {}
+    for c in cases:
+        kinds[c["kind"]] = kinds.get(c["kind"], 0) + 1
+    if kinds.get("conv", 0) < 5000 or kinds.get("add", 0) < 1000 or kinds.get("sub", 0) < 1000 or kinds.get("new", 0) < 50:
+        raise ToolError(f"vacuity guard: too few TimeConv cases {kinds}")
+    proofs = {"RoundTripInv": _apalache("RoundTripInv", wd), "ArithInv": _apalache("ArithInv", wd)}
+    if tier == "thorough":
+        proofs["RoundTripNearest(must fail)"] = _apalache("RoundTripNearest", wd, expect_ok=False)
+    cf = os.path.join(wd, "timeconv.cases")
+    with open(cf, "w") as f:
+        for c in cases:
+            f.write(json.dumps(c) + "\n")
+    rep_path = os.path.join(wd, "timeconv.rep")
+    vlib.run_vh(["timeconv", "--cases", cf, "--out", rep_path, "--exhaustive"])
+    rep = json.load(open(rep_path))
+    violations, known_hits = [], []
+    for d in rep["distinct"]:
+        sig = d["sig"]
+        kf = next((k for k in known["findings"] if sig.startswith(k["signature"])), None)
+        if kf:
+            known_hits.append({"sig": sig, "what": f"{kf['what']} [{sig}]"})
+            continue
+        path = vlib.save_replay(prop, re.sub(r"[^A-Za-z0-9_.-]", "_", sig)[:140], {"property": prop, "signature": sig, "case": d["case"]})
+        violations.append({"sig": sig, "what": f"{sig}: expected {json.dumps(d['expected'])} got {json.dumps(d['got'])} for {json.dumps(d['case'])[:300]}", "replay": path})
+    if rep["exhaustive_ns_values"] != 1000000000:
+        raise ToolError("the exhaustive nanosecond sweep did not run")
+    coverage = {
+        "states": r1["stats"]["distinct"], "transitions": len(cases), "traces_validated_against_impl": rep["evaluated"],
+        "evaluations": rep["evaluated"] + rep["exhaustive_ns_values"],
+        "distinct_nontrivial": kinds.get("conv", 0) + kinds.get("add", 0) + kinds.get("sub", 0),
+        "rule": "one case = one evaluation of TimeConv.tla (Frac/Nanos round trip, Add, Sub, New) by TLC on boundary and sampled operands, "
+                "compared with every corresponding conversion path / operator of the code; in addition every nanosecond value 0..10^9-1 is "
+                "converted by the code and compared with TimeConv!Frac (ceil(ns*2^32/10^9)) and with the round trip",
+        "cases_by_kind": kinds, "exhaustive_ns_values": rep["exhaustive_ns_values"], "panics": rep["panics"],
+        "apalache_proofs_wall_s": proofs,
+        "apalache_scope": "TimeConvA.tla, all ns in [0,10^9) (RoundTripInv) and all operand triples in the full i32 x [0,10^9) range (ArithInv), length 0",
+        "exhaustive": True, "checker_cmd": r1["stats"]["cmd"],
+    }
+    return {"level": "model_checking", "coverage": coverage, "violations": violations, "known": known_hits,
+            "assumptions": ["TLC + Apalache (z3) are trusted", "the 16-bit-limb Frac/Nanos of TimeConv.tla and the integer FracInt/NanosInt of TimeConvA.tla are linked "
+                            "through the code only (both are compared with the same implementation)",
+                            "seconds beyond the sampled boundary values are not enumerated for the conversions (they are copied, not computed)"]}
+
+
+def c14_replay(prop, path):
+    rep = json.load(open(path))
+    wd = vlib.workdir(prop + ".replay")
+    c = rep["case"]
+    if "kind" not in c:
+        # exhaustive sweep counterexample {"ns": n}: rebuild the conv case from the specification
+        r1, cases = _cases_from_tlc("MC_TimeConv", "MC_TimeConv.cfg", wd)
+        print(f"exhaustive sweep counterexample ns={c['ns']}: rerunning the sweep")
+        cf = os.path.join(wd, "c.cases")
+        open(cf, "w").write("")
+        out = os.path.join(wd, "c.rep")
+        vlib.run_vh(["timeconv", "--cases", cf, "--out", out, "--exhaustive"])
+    else:
+        cf = os.path.join(wd, "c.cases")
+        open(cf, "w").write(json.dumps(c) + "\n")
+        out = os.path.join(wd, "c.rep")
+        vlib.run_vh(["timeconv", "--cases", cf, "--out", out])
+    r = json.load(open(out))
+    print(json.dumps(r)[:1500])
+    if any(d["sig"] == rep["signature"] for d in r["distinct"]):
+        print(f"VIOLATION property={prop} replay={path}")
+        return 1
+    return 0
+
+
 def c15_run(prop, tier, seed):
     import random
     wd = vlib.workdir(prop)
@@ -413,6 +506,7 @@ def c15_replay(prop, path):
 
 
 PROPS["C15"] = {"run": c15_run, "replay": c15_replay}
+PROPS["C14"] = {"run": c14_run, "replay": c14_replay}
 
 
 # ------------------------------------------------------------------------------------------
